@@ -154,7 +154,7 @@ def check_props_file(pid, timeout=900):
     if not src.exists():
         return dict(ok=False, theorems=[], bad_axioms=[], log=f"missing {src}")
     rc, out = sh(
-        f"timeout {timeout} coqc -q -Q theories D3 -o {outdir}/{pid}_recheck.vo {src}",
+        f"mkdir -p {outdir}/recheck && timeout {timeout} coqc -q -Q theories D3 -o {outdir}/recheck/{pid}.vo {src}",
         cwd=COQ, timeout=timeout + 30,
     )
     txt = src.read_text()
